@@ -202,6 +202,8 @@ def _check_kills_in(ctx, P, kf):
     # after the pool-level loop the usage fits or every candidate was killed: loop has no other exit than `fits` or exhaustion
     for k in s2:
         lp = enclosing_for(k, kf.node)
+        ctx.ob(6, "K3", "pool-level kills are repeated over the candidates until the usage fits (a single kill may leave the pool above its capacity)", lp is not None, kf, k,
+               construct="pool-level kill loop", detail=f"enclosing loop: {stmt_text(lp) if lp else None}")
         if lp is None:
             continue
         brk = [n for n in ast.walk(lp) if isinstance(n, (ast.Break, ast.Return))]
